@@ -646,7 +646,8 @@ pub struct BaseAddress {
 impl BaseAddress {
     pub fn new(network: u8, payment: &Credential, stake: &Credential) -> Self {
         Self {
-            network,
+            // the header byte holds a 4-bit network id: the value kept is the one that is written
+            network: network & 0x0F,
             payment: payment.clone(),
             stake: stake.clone(),
         }
@@ -687,7 +688,8 @@ pub struct EnterpriseAddress {
 impl EnterpriseAddress {
     pub fn new(network: u8, payment: &Credential) -> Self {
         Self {
-            network,
+            // the header byte holds a 4-bit network id: the value kept is the one that is written
+            network: network & 0x0F,
             payment: payment.clone(),
         }
     }
@@ -723,7 +725,8 @@ pub struct RewardAddress {
 impl RewardAddress {
     pub fn new(network: u8, payment: &Credential) -> Self {
         Self {
-            network,
+            // the header byte holds a 4-bit network id: the value kept is the one that is written
+            network: network & 0x0F,
             payment: payment.clone(),
         }
     }
@@ -885,7 +888,8 @@ pub struct PointerAddress {
 impl PointerAddress {
     pub fn new(network: u8, payment: &Credential, stake: &Pointer) -> Self {
         Self {
-            network,
+            // the header byte holds a 4-bit network id: the value kept is the one that is written
+            network: network & 0x0F,
             payment: payment.clone(),
             stake: stake.clone(),
         }
